@@ -5,25 +5,47 @@
 #define VERIF_TREE_COMMON_H
 
 static size_t cmp_calls;     /* comparator invocations of the current public call */
-static int cmp_num(const void *a, const void *b) { cmp_calls++; uintptr_t x = (uintptr_t)a, y = (uintptr_t)b; return (x > y) - (x < y); }
-static int cmp_rev(const void *a, const void *b) { cmp_calls++; uintptr_t x = (uintptr_t)a, y = (uintptr_t)b; return (x < y) - (x > y); }
+
+/* ---- `keys=buf`: keys are records in an arena, compared BY CONTENT; every call presents its key from a fresh
+   address (the next arena slot), so equal keys are (almost) never pointer-equal — the normal string-key use of
+   the library.  A library that tested `key == n->key`, or overwrote the stored key pointer when a value is
+   replaced, is invisible with keys that are their own pointer value.  The spec / model key is the content. */
+typedef struct { unsigned long long content; unsigned long long pad; } KRec;
+#define KARENA (1u << 18)
+static KRec karena[KARENA];
+static size_t karena_n;
+static int bufkeys;
+static void *mk_key(unsigned long long k) {
+    if (!bufkeys) return (void *)(uintptr_t)k;
+    if (karena_n >= KARENA) { fprintf(stderr, "key arena exhausted\n"); exit(3); }
+    karena[karena_n].content = k;
+    return &karena[karena_n++];
+}
+static unsigned long long kval(const void *p) {
+    if (!bufkeys) return (unsigned long long)(uintptr_t)p;
+    if ((const KRec *)p < karena || (const KRec *)p >= karena + KARENA) return 0xdeadbeefULL;   /* not a key we handed out */
+    return ((const KRec *)p)->content;
+}
+#define KEY(k) mk_key(k)
+static int cmp_num(const void *a, const void *b) { cmp_calls++; uint64_t x = kval(a), y = kval(b); return (x > y) - (x < y); }
+static int cmp_rev(const void *a, const void *b) { cmp_calls++; uint64_t x = kval(a), y = kval(b); return (x < y) - (x > y); }
 /* a total order that is not the numeric one: by v % 100, then by v */
 static int cmp_mod(const void *a, const void *b) {
-    cmp_calls++; uintptr_t x = (uintptr_t)a, y = (uintptr_t)b;
+    cmp_calls++; uint64_t x = kval(a), y = kval(b);
     if (x % 100 != y % 100) return (x % 100 > y % 100) ? 7 : -7;
     return (x > y) ? 3 : (x < y) ? -3 : 0;
 }
 /* numeric order reported with LARGE magnitudes: the 64-bit difference clamped to +-(2^31-1); a library that
  * narrowed the comparator result (char, short) or compared it with == 1 / == -1 would misbehave */
 static int cmp_big(const void *a, const void *b) {
-    cmp_calls++; uintptr_t x = (uintptr_t)a, y = (uintptr_t)b;
+    cmp_calls++; uint64_t x = kval(a), y = kval(b);
     if (x > y) return (x - y > 2147483647u) ? 2147483647 : (int)(x - y);
     if (x < y) return (y - x > 2147483647u) ? -2147483647 : -(int)(y - x);
     return 0;
 }
 typedef int (*cmp_fn)(const void *, const void *);
 static cmp_fn pick_cmp(int which) { return which == 1 ? cmp_rev : which == 2 ? cmp_mod : which == 3 ? cmp_big : cmp_num; }
-static void cb_key(const void *k) { cb_record((void *)k); }
+static void cb_key(const void *k) { cb_record((void *)(uintptr_t)kval(k)); }
 
 /* C17: at most 2*floor(log2(n+1))+2 comparator calls on a table holding n keys */
 static size_t flog2(size_t x) { size_t r = 0; while (x > 1) { x >>= 1; r++; } return r; }
@@ -55,11 +77,35 @@ static void t_put(int t, RBNode *p, unsigned long id) {
         if (e->p == p) return;
     }
 }
+/* keys=buf: content -> the key POINTER that was stored when this content entered the tree (same two-generation
+   scheme: an entry lives as long as a node with that content is seen in every dump).  `kp=1` for a node whose
+   `key` field still is that pointer: cc_treetable_add on an existing key keeps the old key, and remove_node re-links
+   nodes instead of copying keys, so the correct library always shows 1. */
+typedef struct { unsigned long long c; void *p; unsigned long gen; } KEnt;
+static KEnt ktab[2][TCAP];
+static size_t k_hash(unsigned long long c) { return (size_t)((c ^ (c >> 29)) * 0x9E3779B97F4A7C15ULL >> 40) & (TCAP - 1); }
+static void *k_get(int t, unsigned long long c) {
+    for (size_t i = k_hash(c), n = 0; n < TCAP; i = (i + 1) & (TCAP - 1), n++) {
+        KEnt *e = &ktab[t][i];
+        if (e->gen != tgen[t]) return NULL;
+        if (e->c == c) return e->p;
+    }
+    return NULL;
+}
+static void k_put(int t, unsigned long long c, void *p) {
+    for (size_t i = k_hash(c), n = 0; n < TCAP; i = (i + 1) & (TCAP - 1), n++) {
+        KEnt *e = &ktab[t][i];
+        if (e->gen != tgen[t]) { e->c = c; e->p = p; e->gen = tgen[t]; return; }
+        if (e->c == c) return;
+    }
+}
+static int kp_of(RBNode *n) { return k_get(tcur, kval(n->key)) == n->key; }
 static void ids_reset(void) { tgen[0] = ++tgen_ctr; tgen[1] = ++tgen_ctr; tnext_id = 1; tcur = 0; }
 static void ids_walk(CC_TreeTable *t, RBNode *n, int nt, int depth) {
     if (n == t->sentinel || n == NULL || depth > 130) return;
     long id = t_get(tcur, n);
     t_put(nt, n, id >= 0 ? (unsigned long)id : tnext_id++);
+    if (bufkeys) { void *kp = k_get(tcur, kval(n->key)); k_put(nt, kval(n->key), kp ? kp : n->key); }
     ids_walk(t, n->left, nt, depth + 1); ids_walk(t, n->right, nt, depth + 1);
 }
 static void ids_prepass(CC_TreeTable *t) {
@@ -75,6 +121,28 @@ static void o_id(CC_TreeTable *t, RBNode *p) {
     if (id < 0) o("?"); else o("%ld", id);
 }
 
+static unsigned long long id_num(CC_TreeTable *t, RBNode *p) {
+    if (p == t->sentinel) return 0;
+    long id = p ? t_get(tcur, p) : -1;
+    return id < 0 ? ~0ULL : (unsigned long long)id;
+}
+/* `phys=quiet`: instead of the dump, FNV-1a 64 over the same information, 8 little-endian bytes per token, pre-order:
+   sentinel link: 0; NULL link: 3; too deep: 4; node: 1 (black) / 2 (red), key, value, id, parent id (sentinel 0,
+   unknown 2^64-1), with keys=buf also kp.  The Lean driver computes the same number from its pointer-level heap. */
+static int quiet;            /* phys=quiet */
+static int walk_blocks = 1;  /* per-node ledger lookups (linear in the ledger): every op normally, on `observe` when quiet */
+static unsigned long long fnv;
+static void fnv_tok(unsigned long long x) { for (int i = 0; i < 8; i++) { fnv ^= (x >> (8 * i)) & 0xff; fnv *= 1099511628211ULL; } }
+static void sum_node(CC_TreeTable *t, RBNode *n, int depth) {
+    if (n == t->sentinel) { fnv_tok(0); return; }
+    if (n == NULL) { fnv_tok(3); return; }
+    if (depth > 130) { fnv_tok(4); return; }
+    fnv_tok(n->color == RB_BLACK ? 1 : 2); fnv_tok(kval(n->key)); fnv_tok(VAL(n->value));
+    fnv_tok(id_num(t, n)); fnv_tok(id_num(t, n->parent));
+    if (bufkeys) fnv_tok((unsigned long long)kp_of(n));
+    sum_node(t, n->left, depth + 1); sum_node(t, n->right, depth + 1);
+}
+
 static const char *walk_msg;
 static void walk_fail(const char *m) { if (!walk_msg) walk_msg = m; }
 static size_t walk_nodes;
@@ -84,8 +152,8 @@ static void dump_node(CC_TreeTable *t, RBNode *n, int depth) {
     if (n == t->sentinel) { o("."); return; }
     if (n == NULL) { o("NULL"); walk_fail("null-link"); return; }
     if (depth > 130) { o("..."); walk_fail("depth"); return; }
-    o("(%c %llu:%llu#", n->color == RB_BLACK ? 'B' : 'R', VAL(n->key), VAL(n->value));
-    o_id(t, n); o("^"); o_id(t, n->parent); o(" ");
+    o("(%c %llu:%llu#", n->color == RB_BLACK ? 'B' : 'R', kval(n->key), VAL(n->value));
+    o_id(t, n); o("^"); o_id(t, n->parent); if (bufkeys) o("!%d", kp_of(n)); o(" ");
     dump_node(t, n->left, depth + 1); o(" "); dump_node(t, n->right, depth + 1); o(")");
 }
 /* returns the black height of the subtree, computes its height; checks every rule locally */
@@ -96,7 +164,7 @@ static int walk_node(CC_TreeTable *t, RBNode *n, RBNode *parent, int depth, int 
     if (n->parent != parent) walk_fail("parent");
     if (n->color != RB_BLACK && n->color != RB_RED) walk_fail("colour");
     if (n->color == RB_RED && (n->left->color == RB_RED || n->right->color == RB_RED)) walk_fail("red-red");
-    if (block_size(n) < sizeof(RBNode)) walk_fail("node-block");
+    if (walk_blocks && block_size(n) < sizeof(RBNode)) walk_fail("node-block");
     int hl, hr;
     int bl = walk_node(t, n->left, n, depth + 1, &hl);
     if (walk_prev) { size_t keep = cmp_calls; if (t->cmp(walk_prev->key, n->key) >= 0 || t->cmp(n->key, walk_prev->key) <= 0) walk_fail("bst"); cmp_calls = keep; }
@@ -129,13 +197,14 @@ static void phys_tree(CC_TreeTable *t, CC_TreeTableIter *it) {
     if (!it) o("-");
     else {
         if (it->current == t->sentinel) o("cur:S"); else if (it->current == NULL) o("cur:N");
-        else if (node_in_tree(t, t->root, it->current, 0)) { o("cur:%llu#", VAL(it->current->key)); o_id(t, it->current); o_path(t, it->current); }
+        else if (node_in_tree(t, t->root, it->current, 0)) { o("cur:%llu#", kval(it->current->key)); o_id(t, it->current); o_path(t, it->current); }
         else { o("cur:?"); walk_fail("iter-dangling"); }
         if (it->next == t->sentinel) o(",next:S");
-        else if (node_in_tree(t, t->root, it->next, 0)) { o(",next:%llu#", VAL(it->next->key)); o_id(t, it->next); o_path(t, it->next); }
+        else if (node_in_tree(t, t->root, it->next, 0)) { o(",next:%llu#", kval(it->next->key)); o_id(t, it->next); o_path(t, it->next); }
         else { o(",next:?"); walk_fail("iter-dangling"); }
     }
-    o(" tree="); dump_node(t, t->root, 0);
+    if (quiet && !walk_blocks) { fnv = 14695981039346656037ULL; sum_node(t, t->root, 0); o(" tree#=%016llx", fnv); }
+    else { o(" tree="); dump_node(t, t->root, 0); }
     /* walkers */
     RBNode *s = t->sentinel;
     if (s->color != RB_BLACK || s->key || s->value || s->left || s->right) walk_fail("sentinel");
